@@ -212,6 +212,7 @@ def run(tier, seed):
         failing += class_stream(ck)
         failing += malformed_stream(ck, tmp, 10 if not ck.deep else 60)
         failing += nesting_stream(ck)
+        failing += sharing_stream(ck)
         failing += command_stream(ck, tmp)
         ck.cov["rule"] = ("for each of N generated envelopes: every node (descending through bstr-wrapped layers) replaced by 26 "
                           "representatives of the CBOR types (raw splice and with the enclosing byte-string headers rebuilt), every "
@@ -248,7 +249,7 @@ def observe(ck, stream, data, fails, mres=None, origin=""):
     # time / memory: generous linear bounds (a hang or a huge allocation is orders of magnitude beyond them)
     if dt > 2.0 + 0.002 * len(data):
         k = ck.is_known("quadratic_logging", "")
-        if k is not None and deep_nesting(data) > 60:
+        if k is not None and deep_nesting(data) > 120:
             ck.known_finding(k, k["what_fails"] + f" [replayed: {len(data)} bytes took {dt:.1f} s]")
         else:
             fails.append({"input": inp, "observed": f"parsing took {dt:.2f} s for {len(data)} bytes", "expected": "time proportional to the input size"})
@@ -266,11 +267,34 @@ def observe(ck, stream, data, fails, mres=None, origin=""):
 
 
 def deep_nesting(data):
-    d, best, i = 0, 0, 0
-    for b in data[:4000]:
-        if b in (0x58, 0x59, 0x81, 0x82, 0x84, 0xD8):
-            d += 1
-            best = max(best, d)
+    """structural nesting depth of the input: arrays / maps / tags, descending into byte strings that hold well-formed CBOR
+    (iterative; an input that cannot be walked counts as depth 0)"""
+    best = 0
+    try:
+        stack = [(data, cw.parse(data), 1)]
+    except (cw.Bad, RecursionError):
+        # not walkable as a whole (e.g. nested beyond the walker's own recursion): count the run-sequence wrappers directly
+        return data.count(bytes([0x82, 0x18, 0x20]))
+    seen = 0
+    while stack and seen < 20000:
+        buf, it, d = stack.pop()
+        seen += 1
+        best = max(best, d)
+        if it.mt == 4:
+            stack += [(buf, c, d + 1) for c in it.children]
+        elif it.mt == 5:
+            for k, v in it.children:
+                stack += [(buf, k, d + 1), (buf, v, d + 1)]
+        elif it.mt == 6:
+            stack.append((buf, it.tagged, d + 1))
+        elif it.mt == 2 and it.content[1] - it.content[0] > 0:
+            inner = buf[it.content[0]:it.content[1]]
+            try:
+                sub = cw.parse(inner)
+                if sub.end == len(inner):
+                    stack.append((inner, sub, d + 1))
+            except (cw.Bad, RecursionError):
+                pass
     return best
 
 
@@ -369,6 +393,38 @@ def class_stream(ck):
             if not any(b[1] == "Interp.from_cbor/to_obj (class level)" for b in ck.broken):
                 ck.broken.append(("corr", "Interp.from_cbor/to_obj (class level)", f"{n} {d.hex()}: model {str(m)[:160]} implementation {str(r)[:160]}"))
     ck.cov["exhaustive_class_stream"] = True
+    return fails
+
+
+def share_bomb(depth, width=2):
+    """an array whose i-th element is marked shareable (tag 28) and holds `width` references (tag 29) to the previous one:
+    about 9 bytes per level, 2^depth leaves once every reference is expanded"""
+    items = [bytes([0xD8, 28, 0x80])]
+    for i in range(depth):
+        items.append(bytes([0xD8, 28, 0x80 + width]) + (bytes([0xD8, 29]) + cbor2.dumps(i)) * width)
+    return cbor2.dumps([0] * len(items))[:-len(items)] + b"".join(items)
+
+
+def stringref_bomb(n):
+    """a string-reference namespace (tag 256) holding one string of n/2 bytes and n/6 references (tag 25) to it"""
+    refs = n // 6
+    return bytes([0xD9, 0x01, 0x00]) + cbor2.dumps([0] * (refs + 1))[:-(refs + 1)] + cbor2.dumps(b"x" * (n // 2)) + bytes([0xD8, 25, 0x00]) * refs
+
+
+def sharing_stream(ck):
+    """CBOR value sharing / string references: short inputs whose decoded form refers to one object many times.  Re-serialising
+    such a value expands every reference; the parser must answer within time and memory proportional to the INPUT."""
+    fails = []
+    auth = cbor2.dumps(cbor2.dumps([cbor2.dumps([-16, bytes(32)])]))
+    for nm, x in ([(f"value sharing nested {d} deep", share_bomb(d)) for d in ((6, 12, 17, 19) if not ck.deep else (6, 12, 17, 19, 20))]
+                  + [(f"string references, {n} bytes", stringref_bomb(n)) for n in ((600, 6000, 36000) if not ck.deep else (600, 6000, 36000, 50000))]):
+        for where, data in (("as the manifest member", bytes([0xD8, 107, 0xA2, 0x02]) + auth + bytes([0x03]) + x),
+                            ("as the authentication member", bytes([0xD8, 107, 0xA1, 0x02]) + x),
+                            ("inside the wrapped manifest", bytes([0xD8, 107, 0xA2, 0x02]) + auth + bytes([0x03]) + cbor2.dumps(bytes([0xA3, 0x01, 0x01, 0x02, 0x01, 0x03]) + x)),
+                            ("as the whole input", x)):
+            observe(ck, "sharing", data, fails, None, origin=f"{nm}, {where}")
+            if fails:
+                return fails
     return fails
 
 
